@@ -19,7 +19,7 @@ BAD_ADAPTORS = {"filter", "filter_map", "take", "skip", "step_by", "take_while",
 
 
 def fn(crate, name, file_end):
-    bs = [b for b in crate.by_name.get(name, []) if b.kind != "Closure" and (b.file or "").endswith(file_end)]
+    bs = [b for b in crate.by_name.get(name, []) if b.kind != "Closure" and ((b.file or "").endswith(file_end) or crate.aliases.get(b.id) == name)]
     if len(bs) != 1:
         raise mir.AnchorMissing(name, "found %d in %s" % (len(bs), file_end))
     return bs[0]
